@@ -672,7 +672,7 @@ namespace sqf { namespace parser { namespace config { namespace bison  {
 
   case 3:
 #line 158 "parser.y" // lalr1.cc:859
-    { result = ::sqf::parser::config::bison::astnode{}; result.append(yystack_[0].value.as< ::sqf::parser::config::bison::astnode > ()); }
+    { result = ::sqf::parser::config::bison::astnode{}; result.append(std::move(yystack_[0].value.as< ::sqf::parser::config::bison::astnode > ())); }
 #line 677 "parser.tab.cc" // lalr1.cc:859
     break;
 
@@ -684,103 +684,103 @@ namespace sqf { namespace parser { namespace config { namespace bison  {
 
   case 5:
 #line 160 "parser.y" // lalr1.cc:859
-    { result = ::sqf::parser::config::bison::astnode{}; result.append(yystack_[0].value.as< ::sqf::parser::config::bison::astnode > ()); }
+    { result = ::sqf::parser::config::bison::astnode{}; result.append(std::move(yystack_[0].value.as< ::sqf::parser::config::bison::astnode > ())); }
 #line 689 "parser.tab.cc" // lalr1.cc:859
     break;
 
   case 8:
 #line 165 "parser.y" // lalr1.cc:859
-    { yylhs.value.as< ::sqf::parser::config::bison::astnode > () = ::sqf::parser::config::bison::astnode{ astkind::STATEMENTS }; yylhs.value.as< ::sqf::parser::config::bison::astnode > ().append(yystack_[0].value.as< ::sqf::parser::config::bison::astnode > ()); }
+    { yylhs.value.as< ::sqf::parser::config::bison::astnode > () = ::sqf::parser::config::bison::astnode{ astkind::STATEMENTS }; yylhs.value.as< ::sqf::parser::config::bison::astnode > ().append(std::move(yystack_[0].value.as< ::sqf::parser::config::bison::astnode > ())); }
 #line 695 "parser.tab.cc" // lalr1.cc:859
     break;
 
   case 9:
 #line 166 "parser.y" // lalr1.cc:859
-    { yylhs.value.as< ::sqf::parser::config::bison::astnode > () = yystack_[1].value.as< ::sqf::parser::config::bison::astnode > (); }
+    { yylhs.value.as< ::sqf::parser::config::bison::astnode > () = std::move(yystack_[1].value.as< ::sqf::parser::config::bison::astnode > ()); }
 #line 701 "parser.tab.cc" // lalr1.cc:859
     break;
 
   case 10:
 #line 167 "parser.y" // lalr1.cc:859
-    { yylhs.value.as< ::sqf::parser::config::bison::astnode > () = yystack_[2].value.as< ::sqf::parser::config::bison::astnode > (); yylhs.value.as< ::sqf::parser::config::bison::astnode > ().append(yystack_[0].value.as< ::sqf::parser::config::bison::astnode > ()); }
+    { yylhs.value.as< ::sqf::parser::config::bison::astnode > () = std::move(yystack_[2].value.as< ::sqf::parser::config::bison::astnode > ()); yylhs.value.as< ::sqf::parser::config::bison::astnode > ().append(std::move(yystack_[0].value.as< ::sqf::parser::config::bison::astnode > ())); }
 #line 707 "parser.tab.cc" // lalr1.cc:859
     break;
 
   case 11:
 #line 169 "parser.y" // lalr1.cc:859
-    { yylhs.value.as< ::sqf::parser::config::bison::astnode > () = yystack_[0].value.as< ::sqf::parser::config::bison::astnode > (); }
+    { yylhs.value.as< ::sqf::parser::config::bison::astnode > () = std::move(yystack_[0].value.as< ::sqf::parser::config::bison::astnode > ()); }
 #line 713 "parser.tab.cc" // lalr1.cc:859
     break;
 
   case 12:
 #line 170 "parser.y" // lalr1.cc:859
-    { yylhs.value.as< ::sqf::parser::config::bison::astnode > () = yystack_[0].value.as< ::sqf::parser::config::bison::astnode > (); }
+    { yylhs.value.as< ::sqf::parser::config::bison::astnode > () = std::move(yystack_[0].value.as< ::sqf::parser::config::bison::astnode > ()); }
 #line 719 "parser.tab.cc" // lalr1.cc:859
     break;
 
   case 13:
 #line 172 "parser.y" // lalr1.cc:859
-    { yylhs.value.as< ::sqf::parser::config::bison::astnode > () = ::sqf::parser::config::bison::astnode{ astkind::STATEMENTS }; yylhs.value.as< ::sqf::parser::config::bison::astnode > ().append(yystack_[0].value.as< ::sqf::parser::config::bison::astnode > ()); }
+    { yylhs.value.as< ::sqf::parser::config::bison::astnode > () = ::sqf::parser::config::bison::astnode{ astkind::STATEMENTS }; yylhs.value.as< ::sqf::parser::config::bison::astnode > ().append(std::move(yystack_[0].value.as< ::sqf::parser::config::bison::astnode > ())); }
 #line 725 "parser.tab.cc" // lalr1.cc:859
     break;
 
   case 14:
 #line 173 "parser.y" // lalr1.cc:859
-    { yylhs.value.as< ::sqf::parser::config::bison::astnode > () = yystack_[1].value.as< ::sqf::parser::config::bison::astnode > (); }
+    { yylhs.value.as< ::sqf::parser::config::bison::astnode > () = std::move(yystack_[1].value.as< ::sqf::parser::config::bison::astnode > ()); }
 #line 731 "parser.tab.cc" // lalr1.cc:859
     break;
 
   case 15:
 #line 174 "parser.y" // lalr1.cc:859
-    { yylhs.value.as< ::sqf::parser::config::bison::astnode > () = yystack_[2].value.as< ::sqf::parser::config::bison::astnode > (); yylhs.value.as< ::sqf::parser::config::bison::astnode > ().append(yystack_[0].value.as< ::sqf::parser::config::bison::astnode > ()); }
+    { yylhs.value.as< ::sqf::parser::config::bison::astnode > () = std::move(yystack_[2].value.as< ::sqf::parser::config::bison::astnode > ()); yylhs.value.as< ::sqf::parser::config::bison::astnode > ().append(std::move(yystack_[0].value.as< ::sqf::parser::config::bison::astnode > ())); }
 #line 737 "parser.tab.cc" // lalr1.cc:859
     break;
 
   case 16:
 #line 176 "parser.y" // lalr1.cc:859
-    { yylhs.value.as< ::sqf::parser::config::bison::astnode > () = yystack_[0].value.as< ::sqf::parser::config::bison::astnode > (); }
+    { yylhs.value.as< ::sqf::parser::config::bison::astnode > () = std::move(yystack_[0].value.as< ::sqf::parser::config::bison::astnode > ()); }
 #line 743 "parser.tab.cc" // lalr1.cc:859
     break;
 
   case 17:
 #line 177 "parser.y" // lalr1.cc:859
-    { yylhs.value.as< ::sqf::parser::config::bison::astnode > () = yystack_[0].value.as< ::sqf::parser::config::bison::astnode > (); }
+    { yylhs.value.as< ::sqf::parser::config::bison::astnode > () = std::move(yystack_[0].value.as< ::sqf::parser::config::bison::astnode > ()); }
 #line 749 "parser.tab.cc" // lalr1.cc:859
     break;
 
   case 18:
 #line 178 "parser.y" // lalr1.cc:859
-    { yylhs.value.as< ::sqf::parser::config::bison::astnode > () = yystack_[0].value.as< ::sqf::parser::config::bison::astnode > (); }
+    { yylhs.value.as< ::sqf::parser::config::bison::astnode > () = std::move(yystack_[0].value.as< ::sqf::parser::config::bison::astnode > ()); }
 #line 755 "parser.tab.cc" // lalr1.cc:859
     break;
 
   case 19:
 #line 181 "parser.y" // lalr1.cc:859
-    { yylhs.value.as< ::sqf::parser::config::bison::astnode > () = ::sqf::parser::config::bison::astnode{ astkind::CLASS_DEF, yystack_[1].value.as< tokenizer::token > () }; yylhs.value.as< ::sqf::parser::config::bison::astnode > ().append(yystack_[0].value.as< ::sqf::parser::config::bison::astnode > ()); }
+    { yylhs.value.as< ::sqf::parser::config::bison::astnode > () = ::sqf::parser::config::bison::astnode{ astkind::CLASS_DEF, yystack_[1].value.as< tokenizer::token > () }; yylhs.value.as< ::sqf::parser::config::bison::astnode > ().append(std::move(yystack_[0].value.as< ::sqf::parser::config::bison::astnode > ())); }
 #line 761 "parser.tab.cc" // lalr1.cc:859
     break;
 
   case 20:
 #line 182 "parser.y" // lalr1.cc:859
-    { yylhs.value.as< ::sqf::parser::config::bison::astnode > () = ::sqf::parser::config::bison::astnode{ astkind::CLASS_DEF_EXT, yystack_[3].value.as< tokenizer::token > () }; yylhs.value.as< ::sqf::parser::config::bison::astnode > ().append(yystack_[2].value.as< ::sqf::parser::config::bison::astnode > ()); yylhs.value.as< ::sqf::parser::config::bison::astnode > ().append(yystack_[0].value.as< ::sqf::parser::config::bison::astnode > ()); }
+    { yylhs.value.as< ::sqf::parser::config::bison::astnode > () = ::sqf::parser::config::bison::astnode{ astkind::CLASS_DEF_EXT, yystack_[3].value.as< tokenizer::token > () }; yylhs.value.as< ::sqf::parser::config::bison::astnode > ().append(std::move(yystack_[2].value.as< ::sqf::parser::config::bison::astnode > ())); yylhs.value.as< ::sqf::parser::config::bison::astnode > ().append(std::move(yystack_[0].value.as< ::sqf::parser::config::bison::astnode > ())); }
 #line 767 "parser.tab.cc" // lalr1.cc:859
     break;
 
   case 21:
 #line 183 "parser.y" // lalr1.cc:859
-    { yylhs.value.as< ::sqf::parser::config::bison::astnode > () = ::sqf::parser::config::bison::astnode{ astkind::CLASS, yystack_[2].value.as< tokenizer::token > () }; yylhs.value.as< ::sqf::parser::config::bison::astnode > ().append(yystack_[1].value.as< ::sqf::parser::config::bison::astnode > ()); yylhs.value.as< ::sqf::parser::config::bison::astnode > ().append(yystack_[0].value.as< ::sqf::parser::config::bison::astnode > ()); }
+    { yylhs.value.as< ::sqf::parser::config::bison::astnode > () = ::sqf::parser::config::bison::astnode{ astkind::CLASS, yystack_[2].value.as< tokenizer::token > () }; yylhs.value.as< ::sqf::parser::config::bison::astnode > ().append(std::move(yystack_[1].value.as< ::sqf::parser::config::bison::astnode > ())); yylhs.value.as< ::sqf::parser::config::bison::astnode > ().append(std::move(yystack_[0].value.as< ::sqf::parser::config::bison::astnode > ())); }
 #line 773 "parser.tab.cc" // lalr1.cc:859
     break;
 
   case 22:
 #line 184 "parser.y" // lalr1.cc:859
-    { yylhs.value.as< ::sqf::parser::config::bison::astnode > () = ::sqf::parser::config::bison::astnode{ astkind::CLASS_EXT, yystack_[4].value.as< tokenizer::token > () }; yylhs.value.as< ::sqf::parser::config::bison::astnode > ().append(yystack_[3].value.as< ::sqf::parser::config::bison::astnode > ()); yylhs.value.as< ::sqf::parser::config::bison::astnode > ().append(yystack_[1].value.as< ::sqf::parser::config::bison::astnode > ()); yylhs.value.as< ::sqf::parser::config::bison::astnode > ().append(yystack_[0].value.as< ::sqf::parser::config::bison::astnode > ()); }
+    { yylhs.value.as< ::sqf::parser::config::bison::astnode > () = ::sqf::parser::config::bison::astnode{ astkind::CLASS_EXT, yystack_[4].value.as< tokenizer::token > () }; yylhs.value.as< ::sqf::parser::config::bison::astnode > ().append(std::move(yystack_[3].value.as< ::sqf::parser::config::bison::astnode > ())); yylhs.value.as< ::sqf::parser::config::bison::astnode > ().append(std::move(yystack_[1].value.as< ::sqf::parser::config::bison::astnode > ())); yylhs.value.as< ::sqf::parser::config::bison::astnode > ().append(std::move(yystack_[0].value.as< ::sqf::parser::config::bison::astnode > ())); }
 #line 779 "parser.tab.cc" // lalr1.cc:859
     break;
 
   case 23:
 #line 186 "parser.y" // lalr1.cc:859
-    { yylhs.value.as< ::sqf::parser::config::bison::astnode > () = ::sqf::parser::config::bison::astnode{ astkind::DELETE_CLASS, yystack_[1].value.as< tokenizer::token > () }; yylhs.value.as< ::sqf::parser::config::bison::astnode > ().append(yystack_[0].value.as< ::sqf::parser::config::bison::astnode > ()); }
+    { yylhs.value.as< ::sqf::parser::config::bison::astnode > () = ::sqf::parser::config::bison::astnode{ astkind::DELETE_CLASS, yystack_[1].value.as< tokenizer::token > () }; yylhs.value.as< ::sqf::parser::config::bison::astnode > ().append(std::move(yystack_[0].value.as< ::sqf::parser::config::bison::astnode > ())); }
 #line 785 "parser.tab.cc" // lalr1.cc:859
     break;
 
@@ -792,7 +792,7 @@ namespace sqf { namespace parser { namespace config { namespace bison  {
 
   case 25:
 #line 190 "parser.y" // lalr1.cc:859
-    { yylhs.value.as< ::sqf::parser::config::bison::astnode > () = yystack_[1].value.as< ::sqf::parser::config::bison::astnode > (); }
+    { yylhs.value.as< ::sqf::parser::config::bison::astnode > () = std::move(yystack_[1].value.as< ::sqf::parser::config::bison::astnode > ()); }
 #line 797 "parser.tab.cc" // lalr1.cc:859
     break;
 
@@ -800,14 +800,14 @@ namespace sqf { namespace parser { namespace config { namespace bison  {
 #line 194 "parser.y" // lalr1.cc:859
     {
          yylhs.value.as< ::sqf::parser::config::bison::astnode > () = ::sqf::parser::config::bison::astnode{ astkind::FIELD, yystack_[1].value.as< tokenizer::token > () };
-         yylhs.value.as< ::sqf::parser::config::bison::astnode > ().append(yystack_[2].value.as< ::sqf::parser::config::bison::astnode > ());
+         yylhs.value.as< ::sqf::parser::config::bison::astnode > ().append(std::move(yystack_[2].value.as< ::sqf::parser::config::bison::astnode > ()));
          if (yystack_[0].value.as< ::sqf::parser::config::bison::astnode > ().children.size() == 1 && yystack_[0].value.as< ::sqf::parser::config::bison::astnode > ().children[0].kind != astkind::ANY)
          {
             yylhs.value.as< ::sqf::parser::config::bison::astnode > ().append(yystack_[0].value.as< ::sqf::parser::config::bison::astnode > ().children[0]);
          }
          else
          {
-            yylhs.value.as< ::sqf::parser::config::bison::astnode > ().append(yystack_[0].value.as< ::sqf::parser::config::bison::astnode > ());
+            yylhs.value.as< ::sqf::parser::config::bison::astnode > ().append(std::move(yystack_[0].value.as< ::sqf::parser::config::bison::astnode > ()));
          }
      }
 #line 814 "parser.tab.cc" // lalr1.cc:859
@@ -815,13 +815,13 @@ namespace sqf { namespace parser { namespace config { namespace bison  {
 
   case 27:
 #line 206 "parser.y" // lalr1.cc:859
-    { yylhs.value.as< ::sqf::parser::config::bison::astnode > () = ::sqf::parser::config::bison::astnode{ astkind::FIELD_ARRAY, yystack_[1].value.as< tokenizer::token > () }; yylhs.value.as< ::sqf::parser::config::bison::astnode > ().append(yystack_[4].value.as< ::sqf::parser::config::bison::astnode > ()); yylhs.value.as< ::sqf::parser::config::bison::astnode > ().append(yystack_[0].value.as< ::sqf::parser::config::bison::astnode > ()); }
+    { yylhs.value.as< ::sqf::parser::config::bison::astnode > () = ::sqf::parser::config::bison::astnode{ astkind::FIELD_ARRAY, yystack_[1].value.as< tokenizer::token > () }; yylhs.value.as< ::sqf::parser::config::bison::astnode > ().append(std::move(yystack_[4].value.as< ::sqf::parser::config::bison::astnode > ())); yylhs.value.as< ::sqf::parser::config::bison::astnode > ().append(std::move(yystack_[0].value.as< ::sqf::parser::config::bison::astnode > ())); }
 #line 820 "parser.tab.cc" // lalr1.cc:859
     break;
 
   case 28:
 #line 207 "parser.y" // lalr1.cc:859
-    { yylhs.value.as< ::sqf::parser::config::bison::astnode > () = ::sqf::parser::config::bison::astnode{ astkind::FIELD_ARRAY_APPEND, yystack_[1].value.as< tokenizer::token > () }; yylhs.value.as< ::sqf::parser::config::bison::astnode > ().append(yystack_[4].value.as< ::sqf::parser::config::bison::astnode > ()); yylhs.value.as< ::sqf::parser::config::bison::astnode > ().append(yystack_[0].value.as< ::sqf::parser::config::bison::astnode > ()); }
+    { yylhs.value.as< ::sqf::parser::config::bison::astnode > () = ::sqf::parser::config::bison::astnode{ astkind::FIELD_ARRAY_APPEND, yystack_[1].value.as< tokenizer::token > () }; yylhs.value.as< ::sqf::parser::config::bison::astnode > ().append(std::move(yystack_[4].value.as< ::sqf::parser::config::bison::astnode > ())); yylhs.value.as< ::sqf::parser::config::bison::astnode > ().append(std::move(yystack_[0].value.as< ::sqf::parser::config::bison::astnode > ())); }
 #line 826 "parser.tab.cc" // lalr1.cc:859
     break;
 
@@ -857,13 +857,13 @@ namespace sqf { namespace parser { namespace config { namespace bison  {
 
   case 34:
 #line 218 "parser.y" // lalr1.cc:859
-    { yylhs.value.as< ::sqf::parser::config::bison::astnode > () = yystack_[1].value.as< ::sqf::parser::config::bison::astnode > (); }
+    { yylhs.value.as< ::sqf::parser::config::bison::astnode > () = std::move(yystack_[1].value.as< ::sqf::parser::config::bison::astnode > ()); }
 #line 862 "parser.tab.cc" // lalr1.cc:859
     break;
 
   case 35:
 #line 220 "parser.y" // lalr1.cc:859
-    { yylhs.value.as< ::sqf::parser::config::bison::astnode > () = yystack_[0].value.as< ::sqf::parser::config::bison::astnode > (); }
+    { yylhs.value.as< ::sqf::parser::config::bison::astnode > () = std::move(yystack_[0].value.as< ::sqf::parser::config::bison::astnode > ()); }
 #line 868 "parser.tab.cc" // lalr1.cc:859
     break;
 
@@ -876,7 +876,7 @@ namespace sqf { namespace parser { namespace config { namespace bison  {
               }
               else
               {
-                 yylhs.value.as< ::sqf::parser::config::bison::astnode > () = yystack_[0].value.as< ::sqf::parser::config::bison::astnode > ();
+                 yylhs.value.as< ::sqf::parser::config::bison::astnode > () = std::move(yystack_[0].value.as< ::sqf::parser::config::bison::astnode > ());
               }
           }
 #line 883 "parser.tab.cc" // lalr1.cc:859
@@ -884,19 +884,19 @@ namespace sqf { namespace parser { namespace config { namespace bison  {
 
   case 37:
 #line 233 "parser.y" // lalr1.cc:859
-    { yylhs.value.as< ::sqf::parser::config::bison::astnode > () = ::sqf::parser::config::bison::astnode{ astkind::ARRAY }; yylhs.value.as< ::sqf::parser::config::bison::astnode > ().append(yystack_[0].value.as< ::sqf::parser::config::bison::astnode > ()); }
+    { yylhs.value.as< ::sqf::parser::config::bison::astnode > () = ::sqf::parser::config::bison::astnode{ astkind::ARRAY }; yylhs.value.as< ::sqf::parser::config::bison::astnode > ().append(std::move(yystack_[0].value.as< ::sqf::parser::config::bison::astnode > ())); }
 #line 889 "parser.tab.cc" // lalr1.cc:859
     break;
 
   case 38:
 #line 234 "parser.y" // lalr1.cc:859
-    { yylhs.value.as< ::sqf::parser::config::bison::astnode > () = yystack_[2].value.as< ::sqf::parser::config::bison::astnode > (); yylhs.value.as< ::sqf::parser::config::bison::astnode > ().append(yystack_[0].value.as< ::sqf::parser::config::bison::astnode > ()); }
+    { yylhs.value.as< ::sqf::parser::config::bison::astnode > () = std::move(yystack_[2].value.as< ::sqf::parser::config::bison::astnode > ()); yylhs.value.as< ::sqf::parser::config::bison::astnode > ().append(std::move(yystack_[0].value.as< ::sqf::parser::config::bison::astnode > ())); }
 #line 895 "parser.tab.cc" // lalr1.cc:859
     break;
 
   case 39:
 #line 236 "parser.y" // lalr1.cc:859
-    { yylhs.value.as< ::sqf::parser::config::bison::astnode > () = yystack_[0].value.as< ::sqf::parser::config::bison::astnode > (); }
+    { yylhs.value.as< ::sqf::parser::config::bison::astnode > () = std::move(yystack_[0].value.as< ::sqf::parser::config::bison::astnode > ()); }
 #line 901 "parser.tab.cc" // lalr1.cc:859
     break;
 
@@ -920,7 +920,7 @@ namespace sqf { namespace parser { namespace config { namespace bison  {
 
   case 43:
 #line 241 "parser.y" // lalr1.cc:859
-    { yylhs.value.as< ::sqf::parser::config::bison::astnode > () = yystack_[0].value.as< ::sqf::parser::config::bison::astnode > (); }
+    { yylhs.value.as< ::sqf::parser::config::bison::astnode > () = std::move(yystack_[0].value.as< ::sqf::parser::config::bison::astnode > ()); }
 #line 925 "parser.tab.cc" // lalr1.cc:859
     break;
 
@@ -938,19 +938,19 @@ namespace sqf { namespace parser { namespace config { namespace bison  {
 
   case 46:
 #line 245 "parser.y" // lalr1.cc:859
-    { yylhs.value.as< ::sqf::parser::config::bison::astnode > () = yystack_[0].value.as< ::sqf::parser::config::bison::astnode > (); }
+    { yylhs.value.as< ::sqf::parser::config::bison::astnode > () = std::move(yystack_[0].value.as< ::sqf::parser::config::bison::astnode > ()); }
 #line 943 "parser.tab.cc" // lalr1.cc:859
     break;
 
   case 47:
 #line 246 "parser.y" // lalr1.cc:859
-    { yylhs.value.as< ::sqf::parser::config::bison::astnode > () = yystack_[0].value.as< ::sqf::parser::config::bison::astnode > (); }
+    { yylhs.value.as< ::sqf::parser::config::bison::astnode > () = std::move(yystack_[0].value.as< ::sqf::parser::config::bison::astnode > ()); }
 #line 949 "parser.tab.cc" // lalr1.cc:859
     break;
 
   case 48:
 #line 247 "parser.y" // lalr1.cc:859
-    { yylhs.value.as< ::sqf::parser::config::bison::astnode > () = yystack_[0].value.as< ::sqf::parser::config::bison::astnode > (); }
+    { yylhs.value.as< ::sqf::parser::config::bison::astnode > () = std::move(yystack_[0].value.as< ::sqf::parser::config::bison::astnode > ()); }
 #line 955 "parser.tab.cc" // lalr1.cc:859
     break;
 
@@ -986,25 +986,25 @@ namespace sqf { namespace parser { namespace config { namespace bison  {
 
   case 54:
 #line 254 "parser.y" // lalr1.cc:859
-    { yylhs.value.as< ::sqf::parser::config::bison::astnode > () = ::sqf::parser::config::bison::astnode{ astkind::ANYSTRING }; yylhs.value.as< ::sqf::parser::config::bison::astnode > ().append(yystack_[0].value.as< ::sqf::parser::config::bison::astnode > ()); }
+    { yylhs.value.as< ::sqf::parser::config::bison::astnode > () = ::sqf::parser::config::bison::astnode{ astkind::ANYSTRING }; yylhs.value.as< ::sqf::parser::config::bison::astnode > ().append(std::move(yystack_[0].value.as< ::sqf::parser::config::bison::astnode > ())); }
 #line 991 "parser.tab.cc" // lalr1.cc:859
     break;
 
   case 55:
 #line 255 "parser.y" // lalr1.cc:859
-    { yylhs.value.as< ::sqf::parser::config::bison::astnode > () = yystack_[1].value.as< ::sqf::parser::config::bison::astnode > (); yylhs.value.as< ::sqf::parser::config::bison::astnode > ().append(yystack_[0].value.as< ::sqf::parser::config::bison::astnode > ()); }
+    { yylhs.value.as< ::sqf::parser::config::bison::astnode > () = std::move(yystack_[1].value.as< ::sqf::parser::config::bison::astnode > ()); yylhs.value.as< ::sqf::parser::config::bison::astnode > ().append(std::move(yystack_[0].value.as< ::sqf::parser::config::bison::astnode > ())); }
 #line 997 "parser.tab.cc" // lalr1.cc:859
     break;
 
   case 56:
 #line 257 "parser.y" // lalr1.cc:859
-    { yylhs.value.as< ::sqf::parser::config::bison::astnode > () = ::sqf::parser::config::bison::astnode{ astkind::ANYSTRING }; yylhs.value.as< ::sqf::parser::config::bison::astnode > ().append(yystack_[0].value.as< ::sqf::parser::config::bison::astnode > ()); }
+    { yylhs.value.as< ::sqf::parser::config::bison::astnode > () = ::sqf::parser::config::bison::astnode{ astkind::ANYSTRING }; yylhs.value.as< ::sqf::parser::config::bison::astnode > ().append(std::move(yystack_[0].value.as< ::sqf::parser::config::bison::astnode > ())); }
 #line 1003 "parser.tab.cc" // lalr1.cc:859
     break;
 
   case 57:
 #line 258 "parser.y" // lalr1.cc:859
-    { yylhs.value.as< ::sqf::parser::config::bison::astnode > () = yystack_[1].value.as< ::sqf::parser::config::bison::astnode > (); yylhs.value.as< ::sqf::parser::config::bison::astnode > ().append(yystack_[0].value.as< ::sqf::parser::config::bison::astnode > ()); }
+    { yylhs.value.as< ::sqf::parser::config::bison::astnode > () = std::move(yystack_[1].value.as< ::sqf::parser::config::bison::astnode > ()); yylhs.value.as< ::sqf::parser::config::bison::astnode > ().append(std::move(yystack_[0].value.as< ::sqf::parser::config::bison::astnode > ())); }
 #line 1009 "parser.tab.cc" // lalr1.cc:859
     break;
 
